@@ -169,6 +169,35 @@ func facetGenOK(args []string) error {
 		bs, _ := json.Marshal(doc)
 		srcs = append(srcs, src{kind: "nocomponents", g: flags(GenSpec{Name: fmt.Sprintf("g%02d_n%03d", *shard, i), Spec: bs, Ext: "json"}, rng.Fork())})
 	}
+	// components that no operation refers to (a library of shared definitions ahead of its users):
+	// whatever they need from the rest of the package must be there although no operation asks for it
+	for i := 0; i < 2; i++ {
+		pet := map[string]any{"type": "object", "required": []any{"name"}, "properties": map[string]any{"name": map[string]any{"type": "string"}}}
+		comps := map[string]any{}
+		if rng.Bool() {
+			comps["responses"] = map[string]any{"Unused": map[string]any{"description": "d", "content": map[string]any{"application/json": map[string]any{"schema": pet}}}}
+		}
+		if rng.Bool() {
+			comps["schemas"] = map[string]any{"Spare": pet, "Spares": map[string]any{"type": "array", "items": map[string]any{"$ref": "#/components/schemas/Spare"}}}
+		}
+		if rng.Bool() {
+			comps["requestBodies"] = map[string]any{"SpareBody": map[string]any{"content": map[string]any{"application/json": map[string]any{"schema": pet}}}}
+		}
+		if rng.Bool() {
+			comps["parameters"] = map[string]any{"SpareParam": map[string]any{"in": "query", "name": "since", "schema": map[string]any{"type": "string", "format": "date-time"}}}
+		}
+		if rng.Bool() {
+			comps["headers"] = map[string]any{"SpareHeader": map[string]any{"schema": map[string]any{"type": "integer"}}}
+		}
+		if len(comps) == 0 {
+			comps["responses"] = map[string]any{"Unused": map[string]any{"description": "d", "content": map[string]any{"application/json": map[string]any{"schema": pet}}}}
+		}
+		resp := Pick(rng, []map[string]any{{"description": "d"}, {"description": "d", "content": map[string]any{"text/plain": map[string]any{"schema": map[string]any{"type": "string"}}}}})
+		doc := map[string]any{"openapi": "3.0.3", "info": map[string]any{"title": "t", "version": "1"}, "components": comps,
+			"paths": map[string]any{"/ping": map[string]any{"get": map[string]any{"responses": map[string]any{Pick(rng, []string{"200", "default"}): resp}}}}}
+		bs, _ := json.Marshal(doc)
+		srcs = append(srcs, src{kind: "orphans", g: flags(GenSpec{Name: fmt.Sprintf("g%02d_o%03d", *shard, i), Spec: bs, Ext: "json"}, rng.Fork())})
+	}
 	positions := []string{"query", "header", "pathparam", "prop", "schema", "opid", "seg"}
 	for i := 0; i < nStress; i++ {
 		pos := positions[(i+*shard)%len(positions)]
